@@ -416,17 +416,25 @@ def _s4(ctx, zero_guard):
     SL = A("self.sector_length")
     first_idx = A("floordiv(self.position,self.sector_length)")
     first_off = A("mod(self.position,self.sector_length)")
-    whiles = [n for n in own_nodes(fn) if isinstance(n, ast.While)]
+    whiles = [n for n in own_nodes(fn) if isinstance(n, (ast.While, ast.For)) and any(
+        isinstance(c, ast.Call) and isinstance(c.func, ast.Attribute) and c.func.attr == "_read_sector" for c in ast.walk(n))]
     if len(whiles) != 1:
         raise AnalysisError("S4", where(fn), f"expected one middle-sector loop, found {len(whiles)}")
     loop = whiles[0]
-    # the remaining-size counter is the variable compared in the middle-sector loop guard
+    for_form = isinstance(loop, ast.For)
+    # the remaining-size counter is the variable compared in the middle-sector loop guard (while form) / the length of the tail piece (for form)
     rem = None
-    g = loop.test
-    if isinstance(g, ast.Compare) and len(g.ops) == 1:
-        for side in (g.left, g.comparators[0]):
-            if isinstance(side, ast.Name):
-                rem = side.id
+    if not for_form:
+        g = loop.test
+        if isinstance(g, ast.Compare) and len(g.ops) == 1:
+            for side in (g.left, g.comparators[0]):
+                if isinstance(side, ast.Name):
+                    rem = side.id
+    else:
+        tails_ = [c for c in own_nodes(fn) if isinstance(c, ast.Call) and isinstance(c.func, ast.Attribute) and c.func.attr == "_read_sector"
+                  and not _inside(c, loop) and c.lineno > loop.lineno and len(c.args) == 3 and isinstance(c.args[2], ast.Name)]
+        if len(tails_) == 1:
+            rem = tails_[0].args[2].id
     n_calls_total = 0
     for p in prs:
         calls = list(calls_on(p, attr="_read_sector"))
@@ -525,6 +533,32 @@ def _s4(ctx, zero_guard):
             reads_first = any(s_.kind == "stmt" and any(isinstance(c, ast.Call) and isinstance(c.func, ast.Attribute) and c.func.attr == "_read_sector" for c in ast.walk(s_.ast)) for s_ in pr0.steps)
             if reads_first and v0 != first_idx + C(1):
                 okl, det = False, f"first middle sector index is {v0.key()}, expected first + 1"
+        ivar = loop.target.id if for_form and isinstance(loop.target, ast.Name) else None
+        rng = None
+        if for_form:
+            it_ = loop.iter
+            if ivar is None or not (isinstance(it_, ast.Call) and isinstance(it_.func, ast.Name) and it_.func.id == "range" and 1 <= len(it_.args) <= 2 and not it_.keywords) \
+                    or loop.orelse or any(isinstance(n_, ast.Name) and n_.id == ivar and isinstance(n_.ctx, ast.Store) for st_ in loop.body for n_ in ast.walk(st_)):
+                okl, det = False, "the middle-sector loop is not a plain `for i in range(a, b)` whose body leaves i alone"
+            else:
+                rng = (it_.args[0] if len(it_.args) == 2 else ast.Constant(value=0), it_.args[-1])
+        if for_form and rng is not None:
+            # the loop variable takes a, a+1, ..., b-1: the first middle sector is idx(a), each iteration moves on by idx(i+1) - idx(i)
+            for path, end, lab in cfg.paths(cfg.entry, lambda s_, l_, n_: s_ == lp.head):
+                if end != lp.head:
+                    continue
+                pr0 = _walk(ctx, fn, cfg, path)
+                ev0 = evaluator(ctx, fn, {**pr0.env, ivar: evaluator(ctx, fn, pr0.env).ev(rng[0])})
+                reads_first = any(s_.kind == "stmt" and any(isinstance(c, ast.Call) and isinstance(c.func, ast.Attribute) and c.func.attr == "_read_sector" for c in ast.walk(s_.ast)) for s_ in pr0.steps)
+                if reads_first and ev0.ev(idx_expr) != first_idx + C(1):
+                    okl, det = False, f"first middle sector index is {ev0.ev(idx_expr).key()}, expected first + 1"
+                # number of middle sectors: floor((remaining - 1) / sector_length), so that 1 <= tail <= sector_length
+                if rem is not None and reads_first:
+                    cnt = evaluator(ctx, fn, pr0.env).ev(rng[1]) - evaluator(ctx, fn, pr0.env).ev(rng[0])
+                    forms = [evaluator(ctx, fn, pr0.env).ev(ast.parse(t_, mode="eval").body) for t_ in
+                             (f"max({rem} - 1, 0) // self.sector_length", f"({rem} - 1) // self.sector_length")]
+                    if cnt not in forms:
+                        oka2, deta2 = False, f"the loop reads {cnt.key()} middle sectors; (remaining - 1) // sector_length are needed to leave a tail of 1..sector_length bytes"
         for kind, path, edge in cfg.iteration_paths(lp):
             if kind != "back":
                 continue
@@ -532,6 +566,8 @@ def _s4(ctx, zero_guard):
             env_in = pr1.steps[1].env if len(pr1.steps) > 1 else pr1.steps[0].env
             before = evaluator(ctx, fn, env_in).ev(idx_expr)
             after = evaluator(ctx, fn, pr1.env).ev(idx_expr)
+            if for_form and ivar is not None:
+                after = evaluator(ctx, fn, {**pr1.env, ivar: Term.atom(ivar + "~") + C(1)}).ev(idx_expr)
             ncalls = sum(1 for s_ in pr1.steps if s_.kind == "stmt" for c in ast.walk(s_.ast) if c in loop_calls)
             if after - before != C(1) or ncalls != 1:
                 okl, det = False, f"an iteration moves the sector index by {(after - before).key()} and performs {ncalls} sector read(s)"
@@ -544,8 +580,46 @@ def _s4(ctx, zero_guard):
             for c, env, st in calls_on(p, attr="_read_sector"):
                 if c is tail_calls[0]:
                     e2 = evaluator(ctx, fn, env)
-                    if e2.ev(c.args[0]) != e2.ev(idx_expr):
-                        okl, det = False, f"tail piece reads sector {e2.ev(c.args[0]).key()}, the running index is {e2.ev(idx_expr).key()}"
+                    if not for_form:
+                        if e2.ev(c.args[0]) != e2.ev(idx_expr):
+                            okl, det = False, f"tail piece reads sector {e2.ev(c.args[0]).key()}, the running index is {e2.ev(idx_expr).key()}"
+                    elif ivar is not None and rng is not None:
+                        # after a `for`, i is the LAST value it took (b - 1); when the loop did not run it is what it was before and the
+                        # range was empty (count = 0).  The tail piece must read the next unread sector.
+                        entered = any(s_.kind == "for" and s_.ast is loop and s_.label == "true" for s_ in p.steps)
+                        head_env = next((s_.env for s_ in p.steps if s_.kind == "for" and s_.ast is loop), None)
+                        if head_env is None:
+                            continue
+                        a_t, b_t = evaluator(ctx, fn, head_env).ev(rng[0]), evaluator(ctx, fn, head_env).ev(rng[1])
+                        if entered:
+                            env2 = {**env, ivar: b_t - C(1)}
+                            got = evaluator(ctx, fn, env2).ev(c.args[0]).subst({ivar + "~": b_t - C(1)})
+                            want_t = evaluator(ctx, fn, env2).ev(idx_expr).subst({ivar + "~": b_t - C(1)}) + C(1)
+                            if got != want_t:
+                                okl, det = False, (f"tail piece reads sector {got.key()}, but after the loop `{ivar}` is the number of the last middle sector: "
+                                                   f"the next unread sector is {want_t.key()}")
+                        else:
+                            pre = _value_before_loop(ctx, fn, p, ivar, loop)
+                            cnt_t = b_t - a_t
+                            zero = {}
+                            if len(cnt_t.p) == 1 and list(cnt_t.p.values())[0] == 1 and len(list(cnt_t.p)[0]) == 1:
+                                zero = {list(cnt_t.p)[0][0]: C(0)}
+                            env2 = dict(env)
+                            if pre is not None:
+                                env2[ivar] = pre
+                            else:
+                                env2.pop(ivar, None)
+                            raw = evaluator(ctx, fn, env).ev(c.args[0])
+                            uses_i = any(isinstance(n_, ast.Name) and n_.id == ivar for n_ in ast.walk(c.args[0])) or (ivar + "~") in raw.atoms()
+                            if uses_i and pre is None:
+                                okl, det = False, f"`{ivar}` is unbound after a loop that did not run"
+                                continue
+                            got = evaluator(ctx, fn, env2).ev(c.args[0])
+                            if pre is not None:
+                                got = got.subst({ivar + "~": pre})
+                            got = got.subst(zero)
+                            if got != first_idx + C(1):
+                                okl, det = False, f"with no middle sector the tail piece reads sector {got.key()}, not first + 1"
     ctx.ob("S4", loop, "(b) sector indices: first middle sector = first+1, +1 per sector read, the tail piece continues with the same running index", okl, det, inst="index-progression")
     ctx.ob("S4", loop, "(a) every middle sector read is deducted from the remaining size", oka2, deta2, inst="loop-accounting")
     rs = _method(ctx, SECTOR, "SectorStream", "_read_sector", "S4")
@@ -561,7 +635,7 @@ def _value_before_loop(ctx, fn, p, name, loop):
     straight-line prefix if the path never reaches it"""
     val = None
     for s in p.steps:
-        if s.kind == "test" and s.ast is loop:
+        if s.kind in ("test", "for") and s.ast is loop:
             break
         if s.kind == "stmt" and isinstance(s.ast, (ast.Assign, ast.AugAssign)):
             tgts = s.ast.targets if isinstance(s.ast, ast.Assign) else [s.ast.target]
